@@ -230,7 +230,7 @@ def audit(prop, prop_module, source_files):
     axioms, cur = {}, None
     text = o + e
     # output forms: "'X' depends on axioms: [a, b]" (may wrap lines) / "'X' does not depend on any axioms"
-    for m in re.finditer(r"'([^']+)' (does not depend on any axioms|depends on axioms: \[([^\]]*)\])", text, re.S):
+    for m in re.finditer(r"'(\S+?)' (does not depend on any axioms|depends on axioms: \[([^\]]*)\])", text, re.S):
         name = m.group(1)
         axs = [] if m.group(3) is None else [a.strip() for a in m.group(3).replace("\n", " ").split(",") if a.strip()]
         axioms[name] = axs
